@@ -10,6 +10,15 @@ CHECKS = {
  "C01": dict(cat="exploration", tech="property-based testing: generated API programs, R1CS evaluation oracle on a recording backend",
    text="Generated straight-line programs over the whole public API are traced on a recording backend; every emitted constraint is evaluated on the recorded witness modulo the field prime after every statement. Exploration: evidence over the generated programs/configurations, not a proof.",
    note=TB + "; hash gadgets use the toy parameter set here.", ref="4 (C01)"),
+ "C04": dict(cat="exploration", tech="property-based testing: generated programs and an operation x operand-kind x mode cell sweep; wire-expression evaluation oracle",
+   text="After every statement of generated programs (error checking on/off, nested guards of both values, invalid operands) and for every cell of an operation x operand-type x mode sweep, every LinComb reachable from every returned object is evaluated on the recorded witness and compared with the reported value modulo p. Exploration over generated cases.",
+   note=TB + ".", ref="4 (C04)"),
+ "C05": dict(cat="exploration", tech="differential property-based testing against a plain-Python reference; exhaustive operand grids at small bitlength",
+   text="Every integer/boolean operator, for every operand-type combination, is run on complete operand squares [-2^b-2,2^b+2]^2 at small bitlength and on random boundary-biased operands at bitlength 2..32, and compared with Python's result: a returned value must equal Python's (mod p), and inside the documented no-raise domain the call must return. Grids are exhaustive for their (bitlength, field); otherwise exploration.",
+   note=TB + "; the reference semantics in harness/refsem.py (width-relative model for ~ on integers; logical operators on 0/1 only).", ref="4 (C05), 3"),
+ "C06": dict(cat="exploration", tech="metamorphic property-based testing: canonical trace equality across input vectors, modes and guard values",
+   text="For every operation cell and for generated programs, runs that differ only in secret input values, in ignore_errors mode, or in the value of enclosing guards must yield identical canonical traces (variable kinds, constraints mod p, result wire expressions). Exploration over generated programs and a complete sweep of small operand pools.",
+   note=TB + "; plain constants are treated as part of the program.", ref="4 (C06)"),
 }
 PENDING = {}
 
